@@ -203,7 +203,13 @@ func (g *Gen) value(c ColSpec) Val {
 		if g.pool == "small" || g.pool == "agg" {
 			return Val{S: g.sortAlph[g.rng.Intn(len(g.sortAlph))]}
 		}
-		return Val{S: g.str()}
+		s := g.str()
+		if k == KStringCat && len(s) > 60000 {
+			// boundary: no value beyond 65 535 bytes - a concatenating merge generated against a view of the cell
+			// that another client has replaced meanwhile must not push a maximal string over the buffer limit
+			s = s[:60000]
+		}
+		return Val{S: s}
 	case k == KEnum:
 		if len(g.enumHot) > 0 && g.rng.Intn(2) == 0 {
 			return Val{S: g.enumHot[g.rng.Intn(len(g.enumHot))]}
